@@ -37,7 +37,7 @@ type c20Case struct {
 	Outcome   string `json:"outcome"`
 }
 
-var c20Outcomes = []string{"ok", "handler-error", "cancel", "deadline", "transport-failure", "failed-open", "call-on-failed-connection", "cancel-with-response-uncollected", "handler-error-eof", "early-return-late-empty-messages"}
+var c20Outcomes = []string{"ok", "handler-error", "cancel", "deadline", "transport-failure", "failed-open", "call-on-failed-connection", "cancel-with-response-uncollected", "handler-error-eof", "early-return-late-empty-messages", "open-lost-server-resets"}
 
 func c20List(tier string) []c20Case {
 	var out []c20Case
@@ -45,6 +45,9 @@ func c20List(tier string) []c20Case {
 	for chain := 1; chain <= 6; chain++ {
 		for _, kind := range []string{"unary", "client", "server", "bidi"} {
 			for _, oc := range c20Outcomes {
+				if oc == "open-lost-server-resets" && kind == "unary" {
+					continue // a lost unary request is answered by nobody
+				}
 				i++
 				if tier != "thorough" && chain != 1 && chain != 6 && (i%3 != 0) {
 					continue
@@ -680,8 +683,13 @@ func c20Run(tier string, seed int64, idx int) *core.Result {
 		return nil
 	})
 
-	m := svc.NewManualCtx(context.Background())
+	// the caller's own context already carries a value under the key the client interceptor appends to
+	m := svc.NewManualCtx(metadata.AppendToOutgoingContext(context.Background(), "cli-icpt", "0"))
 	switch c.Outcome {
+	case "open-lost-server-resets":
+		// the stream's opening envelope is lost on the way (the transport reports nothing): the
+		// server answers the first body it sees for the unknown stream with a reset
+		end.DiscardWritesAt(end.Writes())
 	case "failed-open":
 		end.FailWriteAt(end.Writes(), true)
 	case "call-on-failed-connection":
@@ -832,8 +840,12 @@ func c20Run(tier string, seed int64, idx int) *core.Result {
 		if fmt.Sprint(hMD.Get("icpt")) != fmt.Sprint(wantIcpt) {
 			res.Violate("interceptor-context-edit-lost", "%s: handler saw icpt metadata %v, want %v", where, hMD.Get("icpt"), wantIcpt)
 		}
-		if c.CliIcpt && fmt.Sprint(hMD.Get("cli-icpt")) != "[1]" {
-			res.Violate("client-interceptor-edit-lost", "%s: handler saw cli-icpt metadata %v", where, hMD.Get("cli-icpt"))
+		wantCli := "[0]"
+		if c.CliIcpt {
+			wantCli = "[0 1]" // appended to the caller's value, in that order
+		}
+		if fmt.Sprint(hMD.Get("cli-icpt")) != wantCli {
+			res.Violate("client-interceptor-edit-lost", "%s: handler saw cli-icpt metadata %v, want %s", where, hMD.Get("cli-icpt"), wantCli)
 		}
 		if hReq != nil && string(hReq) != string(wantReq) {
 			res.Violate("interceptor-request-edit-lost", "%s: handler saw request %q, want %q", where, hReq, wantReq)
@@ -922,6 +934,9 @@ func c20Run(tier string, seed int64, idx int) *core.Result {
 				continue
 			}
 			success := callErr == nil
+			if c.Outcome == "open-lost-server-resets" {
+				success = false // the server reset the stream: that RPC failed, whatever the caller was told
+			}
 			if side == "s" {
 				// on the server side the RPC succeeded iff the handler returned nil: a unary handler
 				// is not interrupted by the caller going away (it returns its reply, which is dropped)
@@ -933,6 +948,12 @@ func c20Run(tier string, seed int64, idx int) *core.Result {
 			res.Stat("stats_handler_rpc_views_checked", 1)
 		}
 	}
+	if c.Outcome == "open-lost-server-resets" {
+		if callErr == nil {
+			res.Violate("stream-reset-by-server-reported-as-success", "%s: the server reset the stream (its open was lost) and the caller's receive loop ended with io.EOF / nil", where)
+		}
+		res.Stat("streams_reset_by_the_server", 1)
+	}
 	res.Stat("rpcs", 1)
 	res.SetAdd("outcomes", c.Outcome)
 	return res
@@ -942,7 +963,7 @@ func init() {
 	core.Register(&core.Prop{
 		ID:             "C20",
 		Level:          "exploration",
-		Rule:           "one RPC per case over the cross product server interceptor chain length 1..6 (ChainUnary/ChainStreamInterceptor, and the single-interceptor options for length 1) x client interceptor {none, one} x 1..3 stats handlers per side x 4 RPC kinds x 9 outcomes {ok, handler error, handler failing with io.EOF, cancel, cancel while a response sits uncollected in the read loop, manual deadline, transport failure, open failing in the transport write, call on a connection whose read already failed} (quick: a fixed third of the middle chain lengths). Every interceptor records enter/exit and edits context metadata, request, reply and error; every stats handler tags the context with a fresh token. Plus connection-level cases: one ConnBegin/ConnEnd per served connection when it ends by Stop / write failure / read failure while idle, while all 8 unary workers are busy with more requests pending, and while a stream whose handler does not read has a full queue. Plus a unary request that a worker takes off the connection just before the connection ends (read failure / Stop / write failure) and that registers with the connection only after Serve's sweep of its calls (the worker is held inside the Serve context's Done method): its handler's context must end and every Begin has its End. All cases are distinct tuples and non-trivial.",
+		Rule:           "one RPC per case over the cross product server interceptor chain length 1..6 (ChainUnary/ChainStreamInterceptor, and the single-interceptor options for length 1) x client interceptor {none, one} x 1..3 stats handlers per side x 4 RPC kinds x 10 outcomes {ok, the stream's opening envelope lost so that the server resets the stream (End must carry an error), handler error, handler failing with io.EOF, cancel, cancel while a response sits uncollected in the read loop, manual deadline, transport failure, open failing in the transport write, call on a connection whose read already failed} (quick: a fixed third of the middle chain lengths). Every interceptor records enter/exit and edits context metadata, request, reply and error; every stats handler tags the context with a fresh token. Plus connection-level cases: one ConnBegin/ConnEnd per served connection when it ends by Stop / write failure / read failure while idle, while all 8 unary workers are busy with more requests pending, and while a stream whose handler does not read has a full queue. Plus a unary request that a worker takes off the connection just before the connection ends (read failure / Stop / write failure) and that registers with the connection only after Serve's sweep of its calls (the worker is held inside the Serve context's Done method): its handler's context must end and every Begin has its End. All cases are distinct tuples and non-trivial.",
 		Plan:           func(tier string, seed int64) int { return len(c20List(tier)) },
 		ThoroughRounds: 8,
 		Run:            c20Run,
